@@ -17,14 +17,13 @@ DRIVER = 'drv_c10'
 DRIVER_ROOT = 'Drv.C10'
 GEN = ['Regex']
 THEOREMS = [
-    'C10.patterns_pinned',
+    'C10.patterns_pinned', 'C10.space_not_word',
     'C10.splitLines_no_newline', 'C10.split_join', 'C10.crlf_eq_lf', 'C10.crlf_eq_lf_text',
     'C10.split_chunks_exact', 'C10.chunking_irrelevant', 'C10.chunking_keepends_irrelevant',
-    'C10.mirror_eq_spec_lines', 'C10.comment_blank_insertion', 'C10.comment_insertion_shift',
+    'C10.mirror_eq_spec_lines', 'C10.mirror_eq_spec_lines_string', 'C10.comment_blank_insertion', 'C10.comment_insertion_shift',
     'C10.continuation_join', 'C10.logical_lines_compositional',
-    'C10.leading_ws_irrelevant_shape', 'C10.leading_ws_irrelevant', 'C10.trailing_ws_irrelevant_partial',
-    'C10.parse_stateless',
-    'C06.caret_under_same_char', 'C06.caret_in_range',
+    'C10.leading_ws_irrelevant_shape', 'C10.leading_ws_irrelevant', 'C10.trailing_ws_irrelevant_partial', 'C10.keyword_line_layout',
+    'C06.caret_under_same_char', 'C06.caret_row', 'C06.caret_in_range',
 ]
 ASSUMPTIONS = [
     'CPython re engine: each anchored statement pattern is re-implemented by a hand-written recogniser (Scan.lean); tied by the '
